@@ -209,6 +209,67 @@ def batch_correspondence(ctx):
                          {'scenario': 'batching', 'groups': gs})
 
 
+def other_database_faults(ctx):
+    """the fault enumeration on a second database (Evolver(database_name='other')): a failed upgrade of THAT database
+    leaves it as it was - its transaction is a transaction on that connection - and the retry completes"""
+    import random
+    done = tries = 0
+    while done < 1 and tries < 8 and ctx.time_left() > 40:
+        tries += 1
+        case = evocases.gen_upgrade(random.Random(ctx.seed * 53 + tries), new_model=0)
+        if case is None:
+            continue
+        seed = ctx.seed * 59 + tries
+        evorig.fresh_databases()
+        evorig.clear_evolutions()
+        models = evorig.install_models(case['spec0'])
+        if evorig.run_evolver('default')[0] != 'ok' or evorig.run_evolver('other')[0] != 'ok':
+            continue
+        dbrig.insert_rows(models, random.Random(seed), alias='other')
+        evocases.save_db('o0', 'other')
+        evocases.install_v1(case)
+        tr0 = evorig.Trace('other')
+        r0 = evorig.run_evolver('other', trace=tr0)
+        if r0[0] != 'ok' or not tr0.write_statements():
+            continue
+        writes = tr0.write_statements()
+        reference = evorig.snapshot('other')
+        done += 1
+        for k in range(len(writes)):
+            if ctx.time_left() < 25:
+                break
+            if is_foreign(writes[k]) or is_bookkeeping(writes[k]) or writes[k].strip().upper().startswith('VACUUM'):
+                continue
+            evocases.restore_db('o0', 'other')
+            evocases.install_v1(case)
+            before = evorig.snapshot('other')
+            tr = evorig.Trace('other', fail_at=k)
+            r = evorig.run_evolver('other', trace=tr)
+            from django.db import connections
+            if connections['other'].in_atomic_block:
+                dbrig.clear_stuck_transaction('other')
+                connections['other'].ensure_connection()
+            after = evorig.snapshot('other')
+            rep = {'scenario': 'fault while evolving database `other`', 'spec0': case['spec0'], 'mutations': case['muts'],
+                   'k': k, 'failed_sql': tr.failed_sql, 'seed': seed}
+            ctx.count('other_database_faults')
+            ctx.case({'scenario': rep['scenario'], 'k': k, 'statement': (tr.failed_sql or '')[:60],
+                      'mutations': [sigs.model_mutation(m) for m in case['muts']]}, nontrivial=True, sample_cap=3)
+            if r[0] != 'error':
+                ctx.fail(None, 'other database: the injected failure at write #%d was swallowed' % k, rep)
+                continue
+            changed = [key for key in before if before[key] != after[key]]
+            if changed:
+                ctx.fail(None, 'other database: after the failed run at write #%d of %d (%s) these differ from before: %s'
+                         % (k, len(writes), (tr.failed_sql or '')[:40], changed), dict(rep, changed=changed))
+                continue
+            r2 = evorig.run_evolver('other')
+            if r2[0] != 'ok':
+                ctx.fail(None, 'other database: the fault-free retry does not complete: %s' % str(r2[1])[:120], rep)
+            elif strip_versions(evorig.snapshot('other')) != strip_versions(reference):
+                ctx.fail(None, 'other database: the retry ends in a different state than the uninterrupted run', rep)
+
+
 def purge_fault_cases(ctx):
     """an upgrade that also purges an app that is no longer installed (two task classes in one run), with a fault at
     every statement of the purge: whatever the first class had done, no evolution may be recorded, the stored
@@ -400,6 +461,7 @@ def run(ctx):
                 if what:
                     ctx.fail(None, 'fault at write #%d of %d: %s' % (k, n, what), dict(rep, retry='same Evolver'))
     purge_fault_cases(ctx)
+    other_database_faults(ctx)
     batch_correspondence(ctx)
     if book_witness is not None:
         ctx.fail(F_BOOK, 'the version/evolution records are written outside the evolution\'s transaction: a failure '
